@@ -24,6 +24,7 @@ ASSUMPTIONS = ["work is measured in executed control-flow edges of the library o
                "costs capped by a configured limit (hard field limit, 64 repetitions, folded-header cap) count as constants"]
 
 RATIO_LIMIT = 2.7        # W(2k)/W(k): 2 = linear, 4 = quadratic
+DEFAULT_CFG = "respdecomp=0,urlenc=1,mpart=1,cookies=1"
 
 
 def hx(b):
@@ -62,7 +63,17 @@ def families():
     fam.append(("req-multipart-parts", mp))
     fam.append(("pipelined-exchanges", lambda k: ((G + b"\r\n") * k, (OK + b"Content-Length: 1\r\n\r\nx") * k)))
     fam.append(("res-body-bytes", lambda k: (G + b"\r\n", OK + b"Content-Length: %d\r\n\r\n" % (k * 10) + b"0123456789" * k)))
-    return fam
+    # Content-Encoding token lists (the token loop of htp_tx_state_response_headers runs only with response decompression on): separator
+    # runs and token runs, with the default layer limit and with "0 = no limit"
+    ZD = "respdecomp=1,urlenc=1,mpart=1,cookies=1"
+    Z0 = ZD + ",layers=0"
+    CE = lambda v: (G + b"\r\n", OK + b"Content-Encoding: " + v + b"\r\nContent-Length: 1\r\n\r\nx")
+    for tag, cfg in (("", ZD), ("-nolimit", Z0)):
+        fam.append(("res-ce-separators-none" + tag, lambda k: CE(b"," * k + b"none"), cfg))
+        fam.append(("res-ce-spaces-unknown" + tag, lambda k: CE(b"a" + b" " * k + b"zz"), cfg))
+        fam.append(("res-ce-none-tokens" + tag, lambda k: CE(b"none, " * k + b"none"), cfg))
+        fam.append(("res-ce-separators-gzip" + tag, lambda k: CE(b"," * k + b"gzip"), cfg))
+    return [f if len(f) == 3 else (f[0], f[1], DEFAULT_CFG) for f in fam]
 
 
 def measure(corr, cfg, req, res, bytewise):
@@ -122,25 +133,25 @@ def run(ctx, model_ok=True, proofs_broken=False):
     cov = lib.build_repo("cov")
     ladder = [100, 200, 400, 800] if quick else [200, 400, 800, 1600, 3200]
     rows = []
-    for name, build in families():
+    for name, build, fcfg in families():
         for bytewise in (False, True):
             ks = ladder if not bytewise else ladder[:-1]
             ws = []
             for k in ks:
                 req, res = build(k)
-                ws.append(measure(cov["corr"], "respdecomp=0,urlenc=1,mpart=1,cookies=1", req, res, bytewise))
+                ws.append(measure(cov["corr"], fcfg, req, res, bytewise))
             if any(w is None for w in ws):
                 ctx.violation("ladder-run-failed", {"family": name, "bytewise": bytewise, "work": ws}, found_input=False)
                 continue
             ratios = [round(ws[i + 1] / max(ws[i], 1), 2) for i in range(len(ws) - 1)]
-            rows.append({"family": name, "delivery": "1-byte" if bytewise else "whole", "k": ks, "work": ws, "ratios": ratios,
+            rows.append({"family": name, "cfg": fcfg, "delivery": "1-byte" if bytewise else "whole", "k": ks, "work": ws, "ratios": ratios,
                          "work_per_byte_at_top": round(ws[-1] / max(len(build(ks[-1])[0]) + len(build(ks[-1])[1]), 1), 1)})
             if ratios[-1] > RATIO_LIMIT and ratios[-1] >= ratios[0] - 0.05:
                 sig = "superlinear:" + name
                 req, res = build(ks[-1])
                 item = {"what": "family %s (%s delivery): work %s at k=%s, ratios %s: W(2k)/W(k) stays above %.1f - not linear" % (
                     name, "1-byte" if bytewise else "whole", ws, ks, ratios, RATIO_LIMIT),
-                    "script": ["conn new respdecomp=0,urlenc=1,mpart=1,cookies=1 -", "conn open", "work", "conn req " + hx(req)] +
+                    "script": ["conn new %s -" % fcfg, "conn open", "work", "conn req " + hx(req)] +
                               (["conn res " + hx(res)] if res else []) + ["work", "conn destroy"]}
                 if sig in known:
                     ctx.known_hits.append("%s (%s) ratios %s" % (sig, known[sig]["what_fails"][:140], ratios))
